@@ -38,6 +38,18 @@ def sh(cmd, timeout=None, cwd=None, env=None, input=None):
 def build(kind="plain", targets=None):
     """Incremental build of /repo's current working tree (+ drivers) with -DGAMA_VERIF."""
     bdir = os.path.join(BUILD, kind)
+    os.makedirs(bdir, exist_ok=True)
+    import fcntl
+    lock = open(os.path.join(BUILD, kind + ".lock"), "w")
+    fcntl.flock(lock, fcntl.LOCK_EX)          # two checks running side by side must not drive ninja in the same directory at once
+    try:
+        return _build_locked(bdir, kind, targets)
+    finally:
+        fcntl.flock(lock, fcntl.LOCK_UN)
+        lock.close()
+
+
+def _build_locked(bdir, kind, targets):
     if not os.path.exists(os.path.join(bdir, "build.ninja")):
         os.makedirs(bdir, exist_ok=True)
         args = ["cmake", "-G", "Ninja", "-S", os.path.join(ROOT, "harness"), "-B", bdir,
